@@ -3,7 +3,7 @@ NOT_APPLICABLE = {}
 TB = "Trusted: Go toolchain packages go/parser, go/scanner, go/format, go/types, go/constant, strconv, reflect; pgregory.net/rapid v1.3.0."
 CHECKS = {
  "C20": {
-  "text": "Generated-history search: rapid draws append/clone histories (<=60 steps quick, <=120 thorough, appends of 0-9 items through fifteen builder methods incl. Case / Default alone with a Block appended later, chains of up to 130 clones of clones so capacity is and is not exhausted, clones also taken inside Do callbacks, statements added to statements, statements handed to a group with tokens chained onto what Group.Add returns, one caller slice holding a nil handed to a variadic construct on two statements); after every step every live statement is rendered and compared with a list model. No counter-example among the generated histories; absence is not established.",
+  "text": "Generated-history search: rapid draws append/clone histories (<=60 steps quick, <=120 thorough, appends of 0-9 items through fifteen builder methods incl. Case / Default alone with a Block appended later, chains of up to 130 clones of clones so capacity is and is not exhausted, clones also taken inside Do callbacks, statements added to statements, statements handed to a group with tokens chained onto what Group.Add returns, one caller slice holding a nil handed to a variadic construct on two statements, names of 53 bytes that differ only near their end, two packages of one name); after every step every live statement is rendered and compared with a list model. No counter-example among the generated histories; absence is not established.",
   "note": TB + " The model accepts a live-view or a snapshot semantics of Clone, since the property allows either, but one and the same for every clone of a history.",
   "technique": "stateful property-based testing (rapid) against a list model",
  },
@@ -23,7 +23,7 @@ CHECKS = {
   "technique": "exhaustive enumeration of reserved words + property-based testing (rapid) with independent reserved-word and uniqueness predicates",
  },
  "C06": {
-  "text": "Generated search over local paths, near-miss paths and sets of dot-imported paths, with and without PackagePrefix: markers of local and dot paths must appear bare (and resolve through go/types via the dot import / the companion file), near misses must be qualified and imported normally, each dot path has exactly one `. \"path\"` spec.",
+  "text": "Generated search over local paths, near-miss paths and sets of dot-imported paths, with and without PackagePrefix: markers of local and dot paths must appear bare (and resolve through go/types via the dot import / the companion file), near misses must be qualified and imported normally, each dot path has exactly one `. \"path\"` spec; every number of dot imports from 1 to 40 in four declaration orders.",
   "note": TB,
   "technique": "property-based testing (rapid) with bare-vs-qualified predicates and go/types resolution",
  },
@@ -33,22 +33,22 @@ CHECKS = {
   "technique": "round-trip property over a real-program corpus and generated programs (go/ast -> DSL -> bytes -> go/ast equality)",
  },
  "C13": {
-  "text": "Exhaustive enumeration of every list construct x arity 0..8 (thorough 0..12) x every subset of null positions x Empty() position, rapid-generated larger lists (arities to 1000, also built through the *Group methods, also after failed renders of the same objects), and the null policy applied to all list constructs of real programs (metamorphic: output with injected null-like items must equal output without, byte for byte; remaining items exactly, in order).",
+  "text": "Exhaustive enumeration of every list construct x arity 0..8 (thorough 0..12) x every subset of null positions x Empty() position, rapid-generated larger lists (arities to 1000, real items padded with null tokens on either side, also built through the *Group methods, also after failed renders of the same objects), and the null policy applied to all list constructs of real programs (metamorphic: output with injected null-like items must equal output without, byte for byte; remaining items exactly, in order).",
   "note": TB + " Null-like items are inserted only as list items, never into call chains, never beside a Dict.",
   "technique": "metamorphic property (null injection) by exhaustive enumeration, rapid generation and corpus programs",
  },
  "C18": {
-  "text": "Exhaustive: every package directory of GOROOT/src rendered alone (with and without prefix) and checked with the go/types resolution oracle against the package clause on disk, once more under an unrelated File setting (preamble, NoFormat, canonical path, Anon, comments, Anon of the package itself); generated colliding sets of up to 60 packages; generated colliding sets; one gennames run compared row by row with the package clauses.",
+  "text": "Exhaustive: every package directory of GOROOT/src rendered alone (with and without prefix) and checked with the go/types resolution oracle against the package clause on disk, once more under an unrelated File setting (preamble, NoFormat, canonical path, Anon, comments, Anon of the package itself); generated colliding sets of up to 60 packages, with crowds of up to 40 third-party packages called like a std package; one gennames run compared row by row with the package clauses.",
   "note": TB + " Real names come from go/parser over GOROOT/src, independent of `go list`.",
   "technique": "exhaustive enumeration of std packages + property-based testing (rapid) with a go/types oracle; differential check of gennames output against package clauses",
  },
  "C19": {
-  "text": "Enumerated cross product (about 6k cases) of C introductions x preamble lists x other imports x prefix x hints x reference order, plus generated preamble texts (texts that start with a line break included; one case in four with a detached C snippet rendered against the File first): parsed output must have exactly one unnamed import of \"C\", all C references qualified by C, and with a preamble an import declaration of its own whose doc comment is the preamble (text compared on the NoFormat twin) ending on the line directly above.",
+  "text": "Enumerated cross product (about 6k cases) of C introductions x preamble lists x other imports x prefix x hints x reference order, 1..70 preamble blocks, plus generated preamble texts (texts that start with a line break included; one case in four with a detached C snippet rendered against the File first): parsed output must have exactly one unnamed import of \"C\", all C references qualified by C, and with a preamble an import declaration of its own whose doc comment is the preamble (text compared on the NoFormat twin) ending on the line directly above.",
   "note": TB + " Raw-form preamble texts are well-formed comments.",
   "technique": "exhaustive cross-product enumeration + property-based testing (rapid) over preamble texts with go/parser / go/types structure oracles",
  },
  "C02": {
-  "text": "Generated search over arbitrary DSL trees (every exported construct, plausible and arbitrary arguments; ~98% invalid Go), plausible valid programs and real programs with one structured damage, under random File settings and form policies: each is built formatted and NoFormat; nil from Render implies the bytes parse and equal gofmt(raw twin); an error implies nothing was written; every body statement and ...Func group is also rendered as a fragment (nil implies the bytes parse as file, declarations or statements); no panic anywhere; programs holding an element jennifer is documented to reject by panicking must never be reported as a success with bytes that are not Go. Thorough adds coverage-guided fuzzing of the same property (rapid.MakeFuzz).",
+  "text": "Generated search over arbitrary DSL trees (every exported construct, plausible and arbitrary arguments; ~98% invalid Go), plausible valid programs and real programs with one structured damage, under random File settings and form policies: each is built formatted and NoFormat; nil from Render implies the bytes parse and equal gofmt(raw twin); an error implies nothing was written; every body statement and ...Func group is also rendered as a fragment (nil implies the bytes parse as file, declarations or statements); no panic anywhere; programs holding an element jennifer is documented to reject by panicking must never be reported as a success with bytes that are not Go. Keyed literals nested 1..16 Dicts deep. Thorough adds coverage-guided fuzzing of the same property (rapid.MakeFuzz).",
   "note": TB + " Documented preconditions are respected by construction (supported Lit types, Dict alone in Values).",
   "technique": "differential property (formatted vs gofmt of NoFormat twin) over rapid-generated trees, damaged programs and native fuzzing",
  },
@@ -58,23 +58,23 @@ CHECKS = {
   "technique": "metamorphic property (rebuild-and-compare, in-process and cross-process) over rapid-generated recipes",
  },
  "C08": {
-  "text": "Stateful generated search: histories of add / File.Render / Statement.RenderWithFile / Group.RenderWithFile / ImportName / ImportAlias / Anon / PackagePrefix / CanonicalPath over one File and a pool of statements (case blocks with nil, null, empty and captured bodies, Dicts with qualified keys); invariants after every step: back-to-back renders equal, unchanged objects render as before, qualifier per path fixed at first sighting, the File's import block declares every sighted path under the modelled name and resolves through go/types; fragments that cannot be formatted fail the same way every time and leave nothing behind; File renders go through Render, GoString or Save; a group kept from a ...Func callback and filled after early renders shows its items.",
+  "text": "Stateful generated search: histories of add / File.Render / Statement.RenderWithFile / Group.RenderWithFile / ImportName / ImportAlias / Anon / PackagePrefix / CanonicalPath over one File and a pool of statements (case blocks with nil, null, empty and captured bodies, Dicts with qualified keys); invariants after every step: back-to-back renders equal, unchanged objects render as before, qualifier per path fixed at first sighting, the File's import block declares every sighted path under the modelled name and resolves through go/types; fragments that cannot be formatted fail the same way every time and leave nothing behind; File renders go through Render, GoString or Save; a group kept from a ...Func callback and filled after early renders shows its items; Files with item-less group constructs rendered 1200..2600 times equal their first render.",
   "note": TB + " Anon on an already sighted path is excluded, as in the property.",
   "technique": "stateful property-based testing (rapid) with history invariants and a first-sighting name model",
  },
  "C09": {
-  "text": "Generated job sets (4..16 File recipes with competing import names): concurrent build+render on one goroutine per job behind a barrier (20 / 200 rounds, cold start: paths unique to the case) under the race detector, then solo references and three sequential permutations in two interleavings, all compared byte-for-byte with the solo output; every other concurrent round goes through File.Save into one directory, over targets that hold near variants of the output; shared values are built under the form policy (LitFunc callbacks that run late answer differently); plus Files sharing the same Code values rendered one after another vs unshared twins; plus 8..14 Files of 2400..3600 nested groups rendered alone and all at once; plus a differential against a re-executed fresh process for Files of confusable literals (the in-process reference would share process-wide state with the render under test). Goroutine interleavings are sampled by the scheduler, not enumerated.",
+  "text": "Generated job sets (4..16 File recipes with competing import names): concurrent build+render on one goroutine per job behind a barrier (20 / 200 rounds, cold start: paths unique to the case) under the race detector, then solo references and three sequential permutations in two interleavings, all compared byte-for-byte with the solo output; every other concurrent round goes through File.Save into one directory, over targets that hold near variants of the output; shared values are built under the form policy (LitFunc callbacks that run late answer differently); every other sequential permutation renders each File behind earlier output in one caller buffer; plus Files sharing the same Code values rendered one after another vs unshared twins; plus 8..14 Files of 2400..3600 nested groups rendered alone and all at once; plus a differential against a re-executed fresh process for Files of confusable literals (the in-process reference would share process-wide state with the render under test). Goroutine interleavings are sampled by the scheduler, not enumerated.",
   "note": TB + " Go race detector (-race build of /repo and the harness).",
   "technique": "differential property (solo vs sequential vs concurrent schedules vs fresh process) over rapid-generated job sets under the Go race detector",
  },
  "C10": {
   "level": "fault_enumeration",
-  "text": "For every generated tree (valid programs and invalid random trees) the complete fault matrix is executed: 5 writer-based entry points x 16 writer behaviours (incl. EPIPE, io.ErrClosedPipe, wrapped and *os.PathError forms, io.EOF, context.Canceled, ENOSPC; real pipes whose reading end is closed), trees whose rendering panics after other items were rendered (the caller's *bytes.Buffer and an instrumented writer are as they were), and File.Save x 7 filesystem situations on a real filesystem; assertions: a failing render performs zero Write calls and leaves an existing target's bytes and mtime untouched, injected writer/FS errors come back non-nil, success delivers exactly the reference bytes (also into a writer that renders other code inside Write, also for NoFormat Files; fragment renders behave alike with a NoFormat context File and its formatted twin). Per-cell counts are in the evidence.",
+  "text": "For every generated tree (valid programs and invalid random trees) the complete fault matrix is executed: 5 writer-based entry points x 16 writer behaviours (incl. EPIPE, io.ErrClosedPipe, wrapped and *os.PathError forms, io.EOF, context.Canceled, ENOSPC; real pipes whose reading end is closed), trees whose rendering panics after other items were rendered (the caller's *bytes.Buffer and an instrumented writer are as they were), outputs of 40..150 KiB, and File.Save x 7 filesystem situations on a real filesystem; assertions: a failing render performs zero Write calls and leaves an existing target's bytes and mtime untouched, injected writer/FS errors come back non-nil, success delivers exactly the reference bytes (also into a writer that renders other code inside Write, also for NoFormat Files; fragment renders behave alike with a NoFormat context File and its formatted twin). Per-cell counts are in the evidence.",
   "note": TB + " Runs as root: permission faults are not used; short writes without error are not injected (they violate io.Writer).",
   "technique": "fault enumeration (writer and filesystem fault matrix) x rapid-generated trees",
  },
  "C11": {
-  "text": "Exhaustive over bool, int8, uint8 (thorough: int16, uint16) and float64 decades 1e-330..1e310; rapid boundary/random values for all 16 supported numeric types; each rendered literal is evaluated with go/types.Eval and compared with the Go value and type (LitFunc: same bytes as Lit, callback ran once); the literal chained into 21 statement contexts (incl. declarations that name an interface type) must leave the statement as it is with an identifier in its place; every literal is also rendered as a fragment (GoString, Render, RenderWithFile), partly after fragment renders that failed; batches of 3..8 literal tables rendered at once on goroutines of their own, every element judged by value and type.",
+  "text": "Exhaustive over bool, int8, uint8 (thorough: int16, uint16) and float64 decades 1e-330..1e310; rapid boundary/random values for all 16 supported numeric types; each rendered literal is evaluated with go/types.Eval and compared with the Go value and type (LitFunc: same bytes as Lit, callback ran once); the literal chained into 21 statement contexts (incl. declarations that name an interface type) must leave the statement as it is with an identifier in its place; every literal is also rendered as a fragment (GoString, Render, RenderWithFile), partly after fragment renders that failed; batches of 3..8 literal tables rendered at once on goroutines of their own, every element judged by value and type; keyed tables (Dict) of 1..1100 literals and plain lists to 8193 literals, every literal under its key / at its position.",
   "note": TB + " Finite values only.",
   "technique": "exhaustive small domains + property-based testing (rapid) with go/types.Eval / go/constant as value-and-type oracle",
  },
@@ -84,12 +84,12 @@ CHECKS = {
   "technique": "exhaustive rune/byte enumeration + property-based testing (rapid) + native fuzzing with scanner-shape and round-trip oracles",
  },
  "C14": {
-  "text": "API enumerated from /repo/jen sources at check time (triples and ...Func companions must exist with identical parameters); for every construct >= 50 generated argument lists compared across function form, method form, Add, *Group method (append + return identity) and ...Func variants, with GoString/Render/RenderWithFile agreement over three repetitions and callback counters (exactly once, never late); seven continuations chained onto every form; the caller's slice is left as it was and usable a second time; form policy applied at every call of real programs vs the all-method build and to every generated call (callback groups completed after the ...Func call returned, Commentf operands that format themselves and answer differently when formatted late).",
+  "text": "API enumerated from /repo/jen sources at check time (triples and ...Func companions must exist with identical parameters); for every construct >= 50 generated argument lists compared across function form, method form, Add, *Group method (append + return identity) and ...Func variants, with GoString/Render/RenderWithFile agreement over three repetitions and callback counters (exactly once, never late); seven continuations chained onto every form; the caller's slice is left as it was and usable a second time; form policy applied at every call of real programs vs the all-method build and to every generated call (callback groups completed after the ...Func call returned, Commentf operands that format themselves and answer differently when formatted late); one statement over N = 1..1030 never-seen packages through Values and ValuesFunc.",
   "note": TB + " Reflection over the compiled API; package functions come from a generated table checked against the sources.",
   "technique": "API-enumerating property-based testing (rapid): cross-form byte equality, callback counting, metamorphic form policy on corpus programs",
  },
  "C15": {
-  "text": "Comment policy applied to every Block/Defs/Struct/Interface/case body/File of real programs and of generated programs, with generated texts: go/scanner code-token sequence with comments must equal the one without (NoFormat and formatted), and the NoFormat output's comments must be exactly the given texts in line or block style; generated file-level settings: package doc iff package comments, headers apart from it by a blank line, import annotation unquotes to the canonical path; settings made after a first render must give what a File configured that way from the start gives; where the comment-free output parses the output with comments must parse too. Input classes of the known findings KF2 and KF3 (gofmt) are excluded from the formatted half and counted.",
+  "text": "Comment policy applied to every Block/Defs/Struct/Interface/case body/File of real programs and of generated programs, with generated texts: go/scanner code-token sequence with comments must equal the one without (NoFormat and formatted), and the NoFormat output's comments must be exactly the given texts in line or block style; generated file-level settings: package doc iff package comments, headers apart from it by a blank line, import annotation unquotes to the canonical path; settings made after a first render must give what a File configured that way from the start gives; where the comment-free output parses the output with comments must parse too; comment texts of equal length and equal 32-bit hash sums keep their own text. Input classes of the known findings KF2 and KF3 (gofmt) are excluded from the formatted half and counted.",
   "note": TB + " Text compared on NoFormat output only (gofmt rewrites doc comments).",
   "technique": "metamorphic property (comment injection) over corpus and rapid-generated programs; structural oracle via go/parser comment groups",
  },
@@ -99,7 +99,7 @@ CHECKS = {
   "technique": "property-based testing (rapid) with a parsed-literal multiset/order/layout oracle",
  },
  "C17": {
-  "text": "Generated tag maps (0..8 conventional keys to hostile byte strings; thorough 1.6M + native fuzzing): exactly one STRING token, strconv.Unquote, reflect.StructTag.Lookup returns every value, keys sorted, empty map renders nothing; raw and formatted output agree; 4..16 maps rendered concurrently on goroutines of their own round-trip as they do alone; one map given to several Tag calls is left as it was; fields also assembled as Add(name, type).Tag(m) from a caller slice that is used again.",
+  "text": "Generated tag maps (0..8 conventional keys to hostile byte strings; thorough 1.6M + native fuzzing): exactly one STRING token, strconv.Unquote, reflect.StructTag.Lookup returns every value, keys sorted, empty map renders nothing; raw and formatted output agree; 4..16 maps rendered concurrently on goroutines of their own round-trip as they do alone; one map given to several Tag calls is left as it was; fields also assembled as Add(name, type).Tag(m) from a caller slice that is used again; structs of 1..2000 tagged fields chained onto one statement or given as one list.",
   "note": TB,
   "technique": "round-trip property (rapid + native fuzzing) through strconv.Unquote and reflect.StructTag",
  },
